@@ -10,7 +10,7 @@ Sorts
 Trusted facts about Python values (T4 of DESIGN 2.5) are the VALUE_AXIOMS below; they are listed in every
 evidence file.
 """
-import itertools, os, subprocess, tempfile, time
+import itertools, os, subprocess, sys, tempfile, time
 import z3
 from z3 import (And, Or, Not, Implies, If, ForAll, Exists, Int, IntVal, BoolVal, Const, Function, IntSort,
                 BoolSort, RealSort, ArraySort, DeclareSort, EnumSort, Select, Store, Solver, sat, unsat, unknown,
@@ -106,8 +106,8 @@ def fresh_arr(prefix='a'):
 
 # ------------------------------------------------------------------------------------------------ solving
 
-Z3_TIMEOUT_MS = int(os.environ.get('PYVC_Z3_MS', '20000'))
-CVC5_TIMEOUT_S = int(os.environ.get('PYVC_CVC5_S', '60'))
+Z3_TIMEOUT_MS = int(os.environ.get('PYVC_Z3_MS', '45000'))
+CVC5_TIMEOUT_S = int(os.environ.get('PYVC_CVC5_S', '90'))
 CVC5 = '/usr/bin/cvc5'
 
 
@@ -175,6 +175,14 @@ def prove(hyps, goal, timeout_ms=None, use_cvc5=True, both=False):
         s.add(h)
     s.add(Not(goal))
     r = s.check()
+    if os.environ.get('PYVC_STATS'):
+        try:
+            st = s.statistics()
+            rl = [st.get_key_value(k) for k in st.keys() if k == 'rlimit count']
+            if time.time() - t0 > 0.5:
+                open('/tmp/pyvc_stats.log', 'a').write('STATS %s %.2fs rlimit=%s\n' % (r, time.time() - t0, rl))
+        except Exception:
+            pass
     if r == unsat:
         res = Result('unsat', 'z3-%s' % z3.get_version_string(), time.time() - t0)
         if both and use_cvc5:
